@@ -29,6 +29,33 @@ type Plan struct {
 	GLSeeds []uint64 `json:"gl_seeds,omitempty"`
 }
 
+// apiPairs: an auxiliary, NON-simulation assertion (labelled aux.* like C16's):
+// every sync/machine call of the Go source must appear as the corresponding
+// GooseLang primitive the same number of times in the emitted definition(s).
+// Needed because cond.Signal and cond.Broadcast are both no-ops in GooseLang's
+// model, so swapping them is invisible to any execution-based oracle.
+var apiPairs = [][2]string{
+	{".Lock()", "lock.acquire "}, {".Unlock()", "lock.release "}, {".Signal()", "lock.condSignal "},
+	{".Broadcast()", "lock.condBroadcast "}, {"cond.Wait()", "lock.condWait "}, {"machine.WaitTimeout(", "lock.condWaitTimeout "},
+	{"wg.Add(", "waitgroup.Add "}, {"wg.Done()", "waitgroup.Done "}, {"wg.Wait()", "waitgroup.Wait "},
+	{"go func()", "Fork ("}, {"machine.Sleep(", "time.Sleep "}, {"new(sync.Mutex)", "lock.new "}, {"sync.NewCond(", "lock.newCond "},
+}
+
+var vText string
+
+// defText returns the emitted text of one Definition.
+func defText(name string) string {
+	i := strings.Index(vText, "Definition "+name+":")
+	if i < 0 {
+		return ""
+	}
+	j := strings.Index(vText[i+10:], "\nDefinition ")
+	if j < 0 {
+		return vText[i:]
+	}
+	return vText[i : i+10+j]
+}
+
 var (
 	batch    c03gen.Batch
 	byName   = map[string]c03gen.Meta{}
@@ -65,6 +92,7 @@ func load() {
 		}
 		return
 	}
+	vText = string(vb)
 	p, err := glang.Parse(string(vb))
 	if err != nil {
 		loadErr = "reader: " + err.Error()
@@ -192,6 +220,22 @@ func (c03) Exec(pj json.RawMessage, tape *simrt.Tape, keepLog bool) harness.RunO
 		fail("gl.rejected", "the emitted file has no definition for "+p.Prog)
 		return out
 	}
+	// ---- auxiliary API-correspondence assertion (not simulation) --------------------
+	if !strings.Contains(p.Source, "S"+strings.TrimPrefix(p.Prog, "p")+"{") { // struct programs call methods defined elsewhere
+		dt := defText(p.Prog)
+		for _, pr := range apiPairs {
+			g, v := strings.Count(p.Source, pr[0]), strings.Count(dt, pr[1])
+			if pr[0] == "cond.Wait()" {
+				g = strings.Count(p.Source, "cond.Wait()")
+			}
+			if g != v {
+				out.Fingerprint = simrt.HashString("aux" + p.Prog)
+				fail("aux.api-correspondence", fmt.Sprintf("the Go source has %d x %q but the emitted definition has %d x %q:\n%s", g, pr[0], v, strings.TrimSpace(pr[1]), dt))
+				return out
+			}
+		}
+		out.Probes["aux_api_correspondence"]++
+	}
 	// ---- Go side -------------------------------------------------------------
 	s := simrt.New(simrt.Config{Tape: tape, KeepLog: keepLog, PathNames: true, TraceSync: true, MaxSteps: 100000})
 	var goVal uint64
@@ -260,12 +304,16 @@ func (c03) Exec(pj json.RawMessage, tape *simrt.Tape, keepLog bool) harness.RunO
 		// search: is Go's result reachable at all?
 		found := false
 		var seen []string
-		for i := 0; i < 300 && !found; i++ {
+		stepLimits := 0
+		for i := 0; i < 300 && !found && stepLimits < 12; i++ {
 			tp := simrt.NewTape(simrt.NewRand(simrt.Mix(p.GenSeed, simrt.HashString(p.Prog), uint64(i))), fairStrategy(simrt.NewRand(uint64(i))))
-			r := program.Run(p.Prog, []glang.Value{glang.Unit}, glang.Options{Tape: tp})
+			r := program.Run(p.Prog, []glang.Value{glang.Unit}, glang.Options{Tape: tp, MaxSteps: 20000})
 			out.Events += r.Steps
 			if r.Outcome == "returned" && r.Value == want {
 				found = true
+			}
+			if r.Outcome == "step-limit" {
+				stepLimits++
 			}
 			if len(seen) < 8 {
 				seen = append(seen, r.Outcome+":"+r.Value)
@@ -281,7 +329,7 @@ func (c03) Exec(pj json.RawMessage, tape *simrt.Tape, keepLog bool) harness.RunO
 	if p.Class == "det" {
 		for _, sd := range p.GLSeeds {
 			tp := simrt.NewTape(simrt.NewRand(sd), fairStrategy(simrt.NewRand(sd)))
-			r := program.Run(p.Prog, []glang.Value{glang.Unit}, glang.Options{Tape: tp})
+			r := program.Run(p.Prog, []glang.Value{glang.Unit}, glang.Options{Tape: tp, MaxSteps: 50000})
 			out.Events += r.Steps
 			out.Probes["gl_interleavings"]++
 			out.Fingerprint = out.Fingerprint*1099511628211 ^ r.Fingerprint
